@@ -8,9 +8,9 @@
 (*    product PubLens x PubHLs (also the stimulus generator, -simulate).    *)
 EXTENDS Envelope, TLC
 
-CONSTANTS MaxPub, PubLens, PubHLs, MaxN, TableOn
-VARIABLES last, nPub
-mcvars == <<vars, last, nPub>>
+CONSTANTS MaxPub, PubLens, PubHLs, MaxN, TableOn, MaxInt, MaxShape, IntAnywhere
+VARIABLES last, nPub, nInt
+mcvars == <<vars, last, nPub, nInt>>
 
 PubInputs == {i \in [len : PubLens, magicOK : BOOLEAN, verOK : BOOLEAN, hl : PubHLs, crcFlag : BOOLEAN,
                      otherFlags : BOOLEAN, typeOK : BOOLEAN, crcOK : BOOLEAN] :
@@ -18,38 +18,52 @@ PubInputs == {i \in [len : PubLens, magicOK : BOOLEAN, verOK : BOOLEAN, hl : Pub
                 /\ ~i.magicOK => (i.verOK /\ i.typeOK /\ ~i.crcFlag /\ ~i.otherFlags /\ i.crcOK)
                 /\ ~i.verOK => (i.typeOK /\ ~i.crcFlag /\ ~i.otherFlags /\ i.crcOK)}
 
-MCInit == Init /\ last = [a |-> "Open"] /\ nPub = 0
+MCInit == Init /\ last = [a |-> "Open"] /\ nPub = 0 /\ nInt = 0
 
 MCDecode(dec, i, pbOK) ==
   /\ TableOn /\ last.a = "Open"
   /\ PbFeasible(i, pbOK) /\ (dec = "repl" => pbOK)
   /\ DoDecode(dec, i, pbOK)
-  /\ last' = [a |-> "Decode", dec |-> dec, i |-> i, pbOK |-> pbOK] /\ UNCHANGED nPub
+  /\ last' = [a |-> "Decode", dec |-> dec, i |-> i, pbOK |-> pbOK] /\ UNCHANGED <<nPub, nInt>>
 
 MCRoundTrip(dec, n) ==
   /\ TableOn /\ last.a = "Open"
   /\ n # 1 /\ (dec = "repl" => n >= ReplFixed)
   /\ DoRoundTrip(dec, n)
-  /\ last' = [a |-> "RoundTrip", dec |-> dec, n |-> n] /\ UNCHANGED nPub
+  /\ last' = [a |-> "RoundTrip", dec |-> dec, n |-> n] /\ UNCHANGED <<nPub, nInt>>
 
 MCPublishRaw(i, pbOK) ==
-  /\ last.a \in {"Open", "PublishRaw", "ReadBack"} /\ nPub < MaxPub
+  /\ last.a \in {"Open", "PublishRaw", "ReadBack", "Internal"} /\ nPub < MaxPub
+  /\ IntAnywhere \/ nInt = 0      \* design check: internal traffic and publishes are explored separately
   /\ PbFeasible(i, pbOK)
   /\ DoPublishRaw(i, pbOK, nPub + 1)
   /\ last' = [a |-> "PublishRaw", i |-> i, pbOK |-> pbOK, id |-> nPub + 1]
-  /\ nPub' = nPub + 1
+  /\ nPub' = nPub + 1 /\ UNCHANGED nInt
 
 \* guards hoisted out of the quantifiers: TLC would otherwise walk the whole product in every state
 MCReadBack ==
   /\ last.a = "PublishRaw"
   /\ DoReadBack
-  /\ last' = [a |-> "ReadBack"] /\ UNCHANGED nPub
+  /\ last' = [a |-> "ReadBack"] /\ UNCHANGED <<nPub, nInt>>
+
+\* bytes for an internal RPC subject: the representative inputs of PubInputs with the two lengths that
+\* leave room for a request, every handler, every request shape
+IntInputs == {i \in PubInputs : i.len \in {8, 28} /\ i.hl \in {8, 12, 255}}
+MCInternal(h, i, pbOK, shape) ==
+  /\ last.a \in {"Open", "PublishRaw", "ReadBack", "Internal"} /\ nInt < MaxInt
+  /\ IntAnywhere \/ nPub = 0
+  /\ PbFeasible(i, pbOK) /\ (~pbOK => shape = 0)
+  /\ DoInternal(h, i, pbOK, shape)
+  /\ last' = [a |-> "Internal", h |-> h, i |-> i, pbOK |-> pbOK, shape |-> shape]
+  /\ nInt' = nInt + 1 /\ UNCHANGED nPub
 
 MCNext ==
   \/ (TableOn /\ last.a = "Open") /\ \E dec \in Decoders, i \in Inputs, pbOK \in BOOLEAN : MCDecode(dec, i, pbOK)
   \/ (TableOn /\ last.a = "Open") /\ \E dec \in Decoders, n \in 0..MaxN : MCRoundTrip(dec, n)
-  \/ (last.a \in {"Open", "PublishRaw", "ReadBack"} /\ nPub < MaxPub) /\ \E i \in PubInputs, pbOK \in BOOLEAN : MCPublishRaw(i, pbOK)
+  \/ (last.a \in {"Open", "PublishRaw", "ReadBack", "Internal"} /\ nPub < MaxPub /\ (IntAnywhere \/ nInt = 0)) /\ \E i \in PubInputs, pbOK \in BOOLEAN : MCPublishRaw(i, pbOK)
   \/ MCReadBack
+  \/ (last.a \in {"Open", "PublishRaw", "ReadBack", "Internal"} /\ nInt < MaxInt /\ (IntAnywhere \/ nPub = 0)) /\
+       \E h \in InternalHandlers, i \in IntInputs, pbOK \in BOOLEAN, shape \in 0..MaxShape : MCInternal(h, i, pbOK, shape)
 
 MCSpec == MCInit /\ [][MCNext]_mcvars
 
@@ -59,9 +73,10 @@ StepOK ==
     [] a.a = "RoundTrip" -> obs'.um.k = "Ok" /\ obs'.um.same /\ P_Same
     [] a.a = "PublishRaw" -> P_PublishRaw(a.i, a.pbOK, a.id)
     [] a.a = "ReadBack" -> P_ReadBack
+    [] a.a = "Internal" -> P_Internal
     [] OTHER -> P_Same
 StepsOK == [][StepOK]_mcvars
 
 \* the publish-only view used for the server design check (history hidden)
-MCView == <<up, stored, obs, nPub, last>>
+MCView == <<up, stored, obs, nPub, nInt, last>>
 =============================================================================
